@@ -1,3 +1,5 @@
+//go:build !no_c19
+
 package props
 
 import (
